@@ -65,6 +65,33 @@ func (w *WRes) violate(v Violation) {
 	w.Viol = append(w.Viol, v)
 }
 
+func mergeWRes(dst, w *WRes) {
+	dst.Evals += w.Evals
+	dst.States += w.States
+	dst.Trans += w.Trans
+	dst.Traces += w.Traces
+	dst.DontCare += w.DontCare
+	for k, v := range w.Classes {
+		if dst.Classes == nil {
+			dst.Classes = map[string]int{}
+		}
+		dst.Classes[k] += v
+	}
+	for k, v := range w.Notes {
+		if dst.Notes == nil {
+			dst.Notes = map[string]int{}
+		}
+		dst.Notes[k] += v
+	}
+	dst.Distinct = append(dst.Distinct, w.Distinct...)
+	for _, s := range w.Samples {
+		dst.sample(s)
+	}
+	for _, v := range w.Viol {
+		dst.violate(v)
+	}
+}
+
 func shortHash(s string) string {
 	h := sha256.Sum256([]byte(s))
 	return hex.EncodeToString(h[:8])
